@@ -349,7 +349,7 @@ pub struct Known {
 }
 
 pub fn load_known(id: &str) -> Vec<Known> {
-    let Ok(txt) = std::fs::read_to_string("/verif/known_findings.json") else {
+    let Ok(txt) = std::fs::read_to_string(crate::util::verif_root().join("known_findings.json")) else {
         return vec![];
     };
     let Ok(v) = serde_json::from_str::<serde_json::Value>(&txt) else {
@@ -557,7 +557,7 @@ pub fn extra_shrink(spec: &CheckSpec, case: &Case) -> Case {
 }
 
 pub fn write_replay(id: &str, case: &Case, f: &Failure, extra: serde_json::Value) -> PathBuf {
-    let dir = PathBuf::from("/verif/replays");
+    let dir = crate::util::verif_root().join("replays");
     let _ = std::fs::create_dir_all(&dir);
     let h = case_hash(case);
     let p = dir.join(format!("{id}-{h:016x}.json"));
@@ -582,7 +582,7 @@ pub fn write_evidence(
     wall: f64,
     violations: u64,
 ) {
-    let dir = PathBuf::from("/verif/evidence");
+    let dir = crate::util::verif_root().join("evidence");
     let _ = std::fs::create_dir_all(&dir);
     let v = json!({
         "property_id": id,
@@ -621,7 +621,7 @@ pub fn run_history_check(spec: &CheckSpec, tier: &str, seed: u64) -> i32 {
     }
     let mut known_lines = vec![];
     for k in load_known(spec.id) {
-        if let Ok(txt) = std::fs::read_to_string(&k.witness) {
+        if let Ok(txt) = std::fs::read_to_string(crate::util::rebase(&k.witness)) {
             if let Ok(v) = serde_json::from_str::<serde_json::Value>(&txt) {
                 if let Ok(mut case) = serde_json::from_value::<Case>(v["case"].clone()) {
                     case.multi_gen = true;
